@@ -26,6 +26,10 @@ func srpPassword(class string, rng *rand.Rand) string {
 		return "пароль-密码-🔑" + fmt.Sprint(rng.Intn(1000))
 	case "long":
 		return strings.Repeat("correct horse battery staple ", 20) + fmt.Sprint(rng.Intn(1000))
+	case "spaced":
+		return []string{" ", "\t", "\u00a0", "\u3000"}[rng.Intn(4)] + "pass word" + fmt.Sprint(rng.Intn(1000)) + []string{" ", "\n", "\r\n", "\u2003"}[rng.Intn(4)]
+	case "blank":
+		return strings.Repeat(" ", 1+rng.Intn(3)) + []string{"", "\t", "\u00a0"}[rng.Intn(3)]
 	}
 	return "hunter" + fmt.Sprint(rng.Intn(100000))
 }
@@ -202,6 +206,12 @@ func init() {
 			other := password + "x"
 			if rng.Intn(2) == 0 {
 				other = strings.ToUpper(password)
+			}
+			switch pwClass {
+			case "spaced": // the same characters without the surrounding white space are another password
+				other = strings.TrimSpace(password)
+			case "blank":
+				other = password + " "
 			}
 			if ok, _ := check(other); ok {
 				disagree("C18:wrong-password-accepted:"+cls, fmt.Sprintf("the answer computed for %q is accepted for the password %q", other, password), info)
